@@ -6,6 +6,7 @@ import Deb822Verif.Model.DebEdit
 import Deb822Verif.Model.DebWrap
 import Deb822Verif.Spec.DocGrammar
 import Deb822Verif.Spec.DocSDec
+import Deb822Verif.Spec.LossyCanon
 namespace Deb822Verif.Driver.Deb
 open Deb822Verif Proto Deb
 
@@ -294,7 +295,7 @@ def handle (op : String) (args : List String) : Option String :=
   | "deb.lprint", [d] => do
     let d ← decDoc d
     let text := Lossy.printDoc d
-    pure s!"{encStr text} L:{showLossy (Lossy.read text)} S:{strictContent text}"
+    pure s!"{encStr text} L:{showLossy (Lossy.read text)} S:{strictContent text} canon={encBool (Spec.canonDocB d)}"
   | "deb.lhist", [p, ops] => do
     let p ← decPara p
     let outs ← lossyHist p (if ops.isEmpty then [] else ops.splitOn ",")
